@@ -320,21 +320,30 @@ func tokenizeForSemantics(content string) []semanticToken {
 			}
 		}
 
-		length := uint32(lsputil.UTF16Len(tok.Value))
-		if tok.Type == parser.TokenComment {
-			length++
-		}
-
 		tokens = append(tokens, semanticToken{
 			line:      uint32(tok.Pos.Line - 1),
 			col:       uint32(tok.Pos.Column - 1),
-			length:    length,
+			length:    semanticTokenLength(tok),
 			tokenType: semType,
 			modifiers: modifiers,
 		})
 	}
 
 	return tokens
+}
+
+// semanticTokenLength is the number of UTF-16 units the token covers on its line.
+func semanticTokenLength(tok parser.Token) uint32 {
+	switch tok.Type {
+	case parser.TokenCode, parser.TokenCommodity:
+		// written with delimiters that Value drops: (code), "quoted commodity"
+		if tok.End.Line == tok.Pos.Line && tok.End.Column > tok.Pos.Column {
+			return uint32(tok.End.Column - tok.Pos.Column)
+		}
+	case parser.TokenComment:
+		return uint32(lsputil.UTF16Len(tok.Value)) + 1
+	}
+	return uint32(lsputil.UTF16Len(tok.Value))
 }
 
 func extractTagTokensFromComment(tok parser.Token) []semanticToken {
